@@ -28,3 +28,21 @@ Theorem C11_no_read_ahead :
                  (last_err (decode_frames ig ak po fs1 st) <> None -> tail = []).
 Proof. exact frames_prefix. Qed.
 Print Assumptions C11_no_read_ahead.
+
+(* In terms of the generator's trace (Pull = next() on the caller's iterator, Emit = a frame handed
+   to the caller): with a bounded flow the serializer never pulls more than frame_size statements
+   without handing out a frame in between -- the pull that finds the input exhausted included. *)
+From PJ.Proofs Require Import TraceProofs.
+Theorem C11_never_pulls_far_ahead_triples :
+  forall (stmts : list (list term)) (s s' : stream) (evs : list tev) (ok : bool),
+    is_bounded (fl_kind (st_flow s)) = true -> (pend s < fsz s)%nat ->
+    feed stream_triple stmts s = (s', evs, ok) -> gap_ok (fsz s) 0 evs.
+Proof. exact triples_trace_gap. Qed.
+Print Assumptions C11_never_pulls_far_ahead_triples.
+
+Theorem C11_never_pulls_far_ahead_quads :
+  forall (stmts : list (list term)) (s s' : stream) (evs : list tev) (ok : bool),
+    is_bounded (fl_kind (st_flow s)) = true -> (pend s < fsz s)%nat ->
+    feed stream_quad stmts s = (s', evs, ok) -> gap_ok (fsz s) 0 evs.
+Proof. exact quads_trace_gap. Qed.
+Print Assumptions C11_never_pulls_far_ahead_quads.
